@@ -4,6 +4,8 @@ CONSTANTS
   Conn <- MCConn
   Home <- MCHome
   Addr = {"a", "b"}
+  Attr = {"e1", "d1"}
+  AllowReorder = FALSE
   MaxOps = 3
   Defect_StaleClientIndexOnSync = FALSE
 INVARIANTS OwnerIndexExact
